@@ -87,6 +87,17 @@ CHECKS['C07'] = {
                   'Assumed: the consuming-iteration model of HashMap (each entry once, any order), slice sort = ascending rearrangement, derived Ord of InlineConstantBuffer = lexicographic.',
 }
 
+CHECKS['C05'] = {
+    'engine': 'V',
+    'technique': 'Verus contracts on the HLSL exporter: metadata entry and printed annotation are both functions of the declaration api slot',
+    'level_text': 'Unbounded deductive proof (Verus) on the verbatim text of analyse_bindings, GenerateContext::register_binding, generate_register_annotation, generate_vk_binding_annotation and '
+                  'append_vk_binding_annotation: every global / constant buffer with an api slot gets exactly one metadata entry, in the bind group of that slot, carrying the slot location, the same-named descriptor kind '
+                  'and the bindless flag, and nothing else is added; the register(..) / [[vk::binding(..)]] annotation printed for the same declaration carries the same index and group.',
+    'level_note': 'Partial: HLSL targets, binding entries only. NOT decided: descriptor_count of array globals (computed through an un-annotated closure, for which Verus has no postcondition), names (NameMap is opaque), '
+                  'MSL [[id(n)]] / is_used (generate_pipeline monolith), stage entry points and thread-group sizes (build_pipeline). Assumed: registry getters, Vec::from(array), derived Clone = identity. '
+                  'Preconditions: ids in range, bind group index < 2^28.',
+}
+
 NOT_APPLICABLE = {
     'C01': 'not yet built in this session (planned partial claim: literal values and operator identity in the HLSL exporter); see DESIGN.md §3 C01',
     'C02': 'MSL meaning preservation: the Metal generator is three monoliths (4.5k+2.2k+1k lines) over HashMap-backed context; no formal MSL semantics or function-level contract within reach of Verus/Kani',
